@@ -783,6 +783,7 @@ func run(t *testing.T, prop string, x any, cfg simrt.Config) *eng.Outcome {
 			hist[c] = append(hist[c], h)
 		}
 	}
+	cfg.Lockset = true // every access to the store's map is checked against the locks the client holds
 	res := simrt.Run(t, cfg, func() {
 		store = flyt.NewSharedStore()
 		if nc == 1 {
@@ -869,6 +870,11 @@ func run(t *testing.T, prop string, x any, cfg simrt.Config) *eng.Outcome {
 	}
 	if res.Deadlock || res.StepLimit {
 		o.V = viol("hang", "store clients made no progress: %v", res.Blocked)
+		return o
+	}
+	if prop == "C13" && len(res.Races) > 0 {
+		// "the operations never race with each other", decided inside the simulation
+		o.V = viol("unsynchronised-access", "%s", res.Races[0])
 		return o
 	}
 	switch prop {
